@@ -1,3 +1,5 @@
+//go:build verif_c01
+
 package main
 
 // C01 — save then open preserves every observable of the workbook.
